@@ -6,6 +6,7 @@ import (
 	"context"
 	"errors"
 	"strconv"
+	"time"
 
 	"github.com/ipfs/go-cid"
 	ds "github.com/ipfs/go-datastore"
@@ -255,13 +256,18 @@ func VfFullRTFindProviders() {
 		localNamed[cand[i]] = true
 	}
 	named := map[peer.ID]bool{}
-	snd.reply = func(_ context.Context, p peer.ID, req *dht_pb.Message) (*dht_pb.Message, error) {
+	answered := 0
+	snd.reply = func(rctx context.Context, p peer.ID, req *dht_pb.Message) (*dht_pb.Message, error) {
 		if req.Type != dht_pb.Message_GET_PROVIDERS {
 			return nil, errors.New("unexpected request")
+		}
+		if rctx.Err() != nil {
+			return nil, rctx.Err() // an abandoned request is not answered
 		}
 		if vfBool("peer.fails") {
 			return nil, errors.New("rpc failed")
 		}
+		answered++
 		resp := dht_pb.NewMessage(dht_pb.Message_GET_PROVIDERS, req.Key, 0)
 		n := vfChoose("peer.nProviders", vfParam("R")+1)
 		for i := 0; i < n; i++ {
@@ -279,10 +285,14 @@ func VfFullRTFindProviders() {
 		cancelAfter = vfChoose("cancelAfter", 2)
 	}
 	var yielded []peer.AddrInfo
+	slowConsumer := vfBool("consumerIsSlow")
 	for ai := range ch {
 		yielded = append(yielded, ai)
 		if len(yielded)-1 == cancelAfter {
 			cancel()
+		}
+		if slowConsumer {
+			vfAdvance(time.Millisecond)
 		}
 	}
 	vfWaitIdle()
@@ -297,6 +307,15 @@ func VfFullRTFindProviders() {
 	} else if cancelAfter < 0 {
 		for id := range localNamed {
 			vfAssert(distinct[id] > 0, "fullrt/count-0-yields-every-stored-provider")
+		}
+		for id := range named {
+			if answered == 1 {
+				vfAssert(distinct[id] > 0, "fullrt/count-0-yields-every-provider-named-in-a-received-answer")
+			} else if slowConsumer {
+				vfAssert(distinct[id] > 0, "fullrt/count-0-yields-every-provider-named-in-a-received-answer(several answers, slow consumer)")
+			} else {
+				vfAssert(distinct[id] > 0, "fullrt/count-0-yields-every-provider-named-in-a-received-answer(several answers)")
+			}
 		}
 	}
 	_ = d.ProviderManager.Close()
